@@ -312,7 +312,7 @@ def _free_scenarios(K6):
         {"name": "hotkey-clear", "cfg": _hc([1, 257, 513], MaxCost=1000, BufCap=64), "goroutines": 10, "opsPer": 100, "clear": True,
          "maxCostOps": False, "ttls": [], "costs": [1], "ample": True, "sleep": False, "yield": True},
         {"name": "hotkey-collide", "cfg": _hc([1, 2], "CollHash", "CollConf", MaxCost=1000, BufCap=64), "goroutines": 10, "opsPer": 100,
-         "clear": False, "maxCostOps": False, "ttls": [1, 5], "costs": [1], "ample": True, "sleep": False, "yield": True, "repeat": 3},
+         "clear": False, "maxCostOps": False, "ttls": [1, 5], "costs": [1], "ample": True, "sleep": True, "yield": True, "repeat": 3},
         {"name": "sweeprace", "cfg": _hc([1, 2, 3], MaxCost=100000, BufCap=64, D=1), "goroutines": 6, "opsPer": 150, "clear": False,
          "maxCostOps": False, "ttls": [1, 1, 2, 0, 30], "costs": [1], "ample": True, "sleep": True, "pattern": "sweeprace", "yield": True},
         {"name": "closesweep", "cfg": _hc(list(range(1, 41)), MaxCost=100000, BufCap=256, D=1), "goroutines": 1, "opsPer": 1, "clear": False,
